@@ -17,7 +17,7 @@ meta = {
     "confirmed": "tools/confirm_mutant.sh in the scratch worktree: demonstration passes on the unchanged tree, fails with the change; `cargo test --workspace --offline` passes with the change",
     "demo": open(f"{d}/demo.rs").readline().strip(),
     "checks_run": f"tools/try_mutant.sh seeded/{prop}-{letter}/patch.diff {checks}",
-    "result": result, "outcome": outcome, "base_commit": "4a86be7",
+    "result": result, "outcome": outcome, "base_commit": __import__("subprocess").check_output(["git","-C","/repo","rev-parse","--short","HEAD"],text=True).strip(),
 }
 json.dump(meta, open(f"{d}/meta.json", "w"), indent=1, ensure_ascii=False)
 print("stored", d)
